@@ -1,5 +1,5 @@
 ENTRY = dict(
-    runner="C12", pkg="./cmd/c12", corr=["Corr.C12Corr"], n=dict(quick=600, thorough=2200), runner_timeout=900,
+    runner="C12", pkg="./cmd/c12", corr=["Corr.C12Corr"], n=dict(quick=470, thorough=2120), runner_timeout=900,
     rule="every predefined parrot (38 ClientHelloIDs accepted by UTLSIdToSpec) over loopback TCP against the scripted server "
          "(verif_server.go), which forces ONE selection at a time drawn at run time from the complement of that very connection's "
          "parsed wire ClientHello: TLS 1.3 suite (implemented-but-unoffered, another GREASE value, unimplemented CCM suite, a TLS 1.2 "
